@@ -108,16 +108,11 @@ let do_classify b pres t =
     if i > 0 then Buffer.add_string b ";";
     show r; Buffer.add_string b "+"; show r1; Buffer.add_string b "+"; show r2) pres;
   Buffer.add_string b (Printf.sprintf " align=%d" (int_of_z (sysv_layout t).sv_align));
-  (* gcc-faithful classes (a bit-field marks every eightbyte it touches) and the guard of classify_eq_gcc_partial *)
-  Buffer.add_string b " gccarg=";
-  (match sysv_classify_g t with
-   | None -> Buffer.add_string b "M"
-   | Some l -> if List.exists (fun c -> c = X87 || c = X87UP) l then Buffer.add_string b "M" else
-       List.iter (fun c -> Buffer.add_string b (match c with INTEGER -> "I" | SSE -> "S" | NO_CLASS -> "n" | _ -> "?")) l);
+  (* does an (unnamed) bit-field touch two eightbytes?  (distribution only; coq/C08/SpanClassify.v) and the
+     argument classes of the rule c2mir had before /repo 21222098 (classify_arg_head) *)
   Buffer.add_string b (if no_straddle t then " straddle=0" else " straddle=1");
-  (* the argument classes of c2mir with fixes/C08-9 (classify_arg_g) *)
-  Buffer.add_string b " mcg=";
-  (match classify_arg_g t with
+  Buffer.add_string b " head=";
+  (match classify_arg_head t with
    | None -> Buffer.add_string b "M"
    | Some l -> if List.exists (fun c -> c = CX87 || c = CX87up) l then Buffer.add_string b "M" else
        List.iter (fun c -> Buffer.add_string b (match c with CInt -> "I" | CSse -> "S" | _ -> "?")) l);
